@@ -282,6 +282,67 @@ fn candidates(u: &Universe, rn: &RoomNode, m: usize, now: i64, r2: &RoomNode, n_
         x.auth_nodes.push(auth);
         push(format!("attacker-authored-group@{}", dn), "authorisations", x, Expect::Full);
     }
+    // rows that only CLAIM the administrator's key: an entry naming the attacker with the creator's verifying key
+    // and a signature that is not the creator's (the attacker's own signature over the same digest), and an
+    // existing honest entry whose content was changed after signing; one candidate per list
+    {
+        let forged_user = |enabled: bool| -> UserNode {
+            let mut n = user_node(u, m, enabled, m, now);
+            n.node.verifying_key = u.keys[0].clone();
+            n
+        };
+        let mut x = rn.clone();
+        let n = forged_user(true);
+        x.admin_edges.push(edge(rid, "0.0", L_ADMIN, n.node.id, m, now));
+        x.admin_nodes.push(n);
+        push("unsigned-entry-claiming-creator-key".into(), "admin", x, Expect::Full);
+        if let Some(a0) = rn.auth_nodes.first() {
+            let aid = a0.node.id;
+            let mut x = rn.clone();
+            let n = forged_user(true);
+            x.auth_nodes[0].user_edges.push(edge(aid, "0.1", L_USERS, n.node.id, m, now));
+            x.auth_nodes[0].user_nodes.push(n);
+            push("unsigned-entry-claiming-creator-key".into(), "users", x, Expect::Full);
+            let mut x = rn.clone();
+            let n = forged_user(true);
+            x.auth_nodes[0].user_admin_edges.push(edge(aid, "0.1", L_UADMIN, n.node.id, m, now));
+            x.auth_nodes[0].user_admin_nodes.push(n);
+            push("unsigned-entry-claiming-creator-key".into(), "user_admin", x, Expect::Full);
+            let mut x = rn.clone();
+            let mut n = right_node("*", true, true, m, now);
+            n.node.verifying_key = u.keys[0].clone();
+            x.auth_nodes[0].right_edges.push(edge(aid, "0.1", L_RIGHTS, n.node.id, m, now));
+            x.auth_nodes[0].right_nodes.push(n);
+            push("unsigned-entry-claiming-creator-key".into(), "rights", x, Expect::Full);
+        }
+        // content of an honest entry changed after signing (names the attacker instead)
+        let retarget = |n: &mut Node| {
+            n._json = Some(json!({"32": b64(&u.keys[m]), "33": true}).to_string());
+        };
+        if !rn.admin_nodes.is_empty() {
+            let mut x = rn.clone();
+            retarget(&mut x.admin_nodes[0].node);
+            push("honest-entry-altered-after-signing".into(), "admin", x, Expect::Full);
+        }
+        for (gi, a) in rn.auth_nodes.iter().enumerate() {
+            if !a.user_nodes.is_empty() {
+                let mut x = rn.clone();
+                retarget(&mut x.auth_nodes[gi].user_nodes[0].node);
+                push("honest-entry-altered-after-signing".into(), "users", x, Expect::Full);
+            }
+            if !a.user_admin_nodes.is_empty() {
+                let mut x = rn.clone();
+                retarget(&mut x.auth_nodes[gi].user_admin_nodes[0].node);
+                push("honest-entry-altered-after-signing".into(), "user_admin", x, Expect::Full);
+            }
+            if !a.right_nodes.is_empty() {
+                let mut x = rn.clone();
+                x.auth_nodes[gi].right_nodes[0].node._json = Some(json!({"32": "*", "33": true, "34": true}).to_string());
+                push("honest-entry-altered-after-signing".into(), "rights", x, Expect::Full);
+            }
+            break;
+        }
+    }
     // replay of a validly signed entry of this room in another place (reference signed by the attacker)
     let find_user_entry = |rn: &RoomNode, key: usize| -> Option<(usize, UserNode)> {
         for (gi, a) in rn.auth_nodes.iter().enumerate() {
